@@ -155,8 +155,14 @@ int main(int argc, char** argv) {
       const Sym e4 = eps / 4;
       bool distinct = true;
       for (int i = 0; i < 3; ++i)
-        for (int j = i + 1; j < 3; ++j)
-          if (tfel::math::abs(vp[i] - vp[j]) < eps) distinct = false;
+        for (int j = i + 1; j < 3; ++j) {
+          // both ways of writing the same test are decided here, consistently: |a-b| < eps and |b-a| < eps cannot differ over
+          // the reals, so that a rewrite of the code that swaps the operands does not open impossible paths
+          const bool c1 = tfel::math::abs(vp[i] - vp[j]) < eps;
+          const bool c2 = tfel::math::abs(vp[j] - vp[i]) < eps;
+          if (c1 != c2) throw std::runtime_error("impossible: |a-b| < eps and |b-a| < eps differ");
+          if (c1) distinct = false;
+        }
       if (distinct) {
         for (int i = 0; i < 3; ++i)
           for (int j = 0; j < 3; ++j) {
